@@ -467,7 +467,7 @@ example : (trace exEnv { batchSize := 1 } exEvs 8).store.stored 4 = false := by 
   (`stepP`, `traceP`; lemmas in `Proofs/ComposeSyncerGate.lean`, `ComposeSyncerPrune.lean`,
   `ComposeSyncerPruneC35.lean`).  A removal is admissible when it satisfies the per-height safety
   condition C35 proves of every height of every pruner batch (`PruneSafe`;
-  `pruner_batches_are_admissible_removals` is the bridge from `Props.C35.batch_safe`).
+  `pruner_batches_are_admissible_removals` is the bridge from `Props.C35.batch_safe_partial`).
 
   REGIME of the convergence result: `hwin` — a header outside the pruning window is outside the
   sampling window (pruning window ≥ sampling window; the defaults are 7 d + 1 h and 7 d;
@@ -627,7 +627,7 @@ def FairHonestAnswersP (c : Nat → Hdr) (e : Env) (s0 : State) (evs : Nat → E
       * `EvOkP`: syncer events as in `EvOk` (announced heads honest, batches passed the p2p layer);
         the network head handed over by trusted peers is inside the sampling window (`HeadFresh`:
         it is seconds old); every removal satisfies C35's per-height condition `PruneSafe` — what
-        `Props.C35.batch_safe` proves of every pruner batch (`pruner_batches_are_admissible_removals`);
+        `Props.C35.batch_safe_partial` proves of every pruner batch (`pruner_batches_are_admissible_removals`);
       * `hwin` (REGIME): outside the pruning window ⇒ outside the sampling window, i.e. pruning
         window ≥ sampling window (defaults 7 d + 1 h / 7 d); `hmono`: header age monotone in the
         height; both time classes fixed during the run (as everywhere in C38);
